@@ -366,6 +366,15 @@ both('t_maca_core', MC,
       'r(x, z) <-- k(x), p(x, t1) if *t1 > 6, p(x + 1, t2) if *t2 > 6, edge(x, z)',
       'r(t, w) <-- k(t), p(t, t1) if let Some(w) = Some(*t1 + 1) if *t1 > 0',
       'b(x, t) <-- edge(x, t), p(x, t1) let u1 = *t1 + 1 if u1 > 3, edge(u1, t1), p(t, t2) let u2 = *t2 + 1 if u2 > 3, edge(u2, t2)'], tags=['twin'])
+# struct patterns with shorthand fields inside a macro body (renaming a shorthand field needs the long form)
+PT_PRE = '   #[derive(Clone, PartialEq, Eq, Hash, Debug)] pub struct Pt { pub t: i32, pub u: i32 }'
+MCS = MC + ['relation pt(i32, Pt)']
+both('t_macs_sugar', MCS, [], body=['pub struct P;'] + [d + ';' for d in MCS] + ['macro pick($x: expr, $r: ident) { pt($x, ?Pt { t, u }), let $r = t + u }'] + [
+     'r(x, s) <-- k(x), pick!(x, s);',
+     'r(t, s) <-- k(t), pick!(t, s), pick!(t + 1, s2), if s2 > s;'], pre=PT_PRE, tags=['twin'], twin=('t_macs_core', 'L'))
+both('t_macs_core', MCS,
+     ['r(x, s) <-- k(x), pt(x, ?Pt { t: t1, u: u1 }), let s = t1 + u1',
+      'r(t, s) <-- k(t), pt(t, ?Pt { t: t1, u: u1 }), let s = t1 + u1, pt((t + 1), ?Pt { t: t2, u: u2 }), let s2 = t2 + u2, if s2 > s'], pre=PT_PRE, tags=['twin'])
 # `expr` parameters stand for one operand
 MACX = ['macro dbl($x: expr, $r: ident) { let $r = $x * 2 }',
         'macro neg1($x: expr, $r: ident) { let $r = 0 - $x }',
@@ -682,6 +691,10 @@ def _crate_of(p):
         digits = ''.join(ch for ch in n if ch.isdigit())
         return 'corpus_rand%d' % (int(digits) % 3)
     if 'twin' in t:
+        if n.startswith('t_mac'):
+            return 'corpus_twins_mac'
+        if n.startswith(('inc_', 'pk_', 't_redecl', 'timeout', 'ruletimes')):
+            return 'corpus_twins_pk'
         return 'corpus_twins'
     if t & {'eqrel', 'trrel', 'trrel_uf'}:
         return 'corpus_byods'
